@@ -98,6 +98,26 @@ class Loader:
             setattr(self.load(parent), child, mod)
         return mod
 
+    def reset_state(self):
+        """called at the start of every execution: memoisation caches that the code under test keeps at module or class
+        level are emptied, so that nothing computed on one explored path is served on the next (within one execution they
+        work as written).  Other module-level mutable state would need a reload; the unmodified code has none."""
+        for mod in list(self.registry.values()):
+            for obj in list(vars(mod).values()):
+                self._clear(obj)
+                if isinstance(obj, type) and getattr(obj, "__module__", None) == mod.__name__:
+                    for attr in list(vars(obj).values()):
+                        self._clear(getattr(attr, "__func__", attr))
+
+    @staticmethod
+    def _clear(obj):
+        cc = getattr(obj, "cache_clear", None)
+        if callable(cc):
+            try:
+                cc()
+            except Exception:
+                pass
+
     def load_file(self, name, path):
         """load a stand-alone script (nextflow/scripts/batchie.py)"""
         mod = types.ModuleType(name)
